@@ -14,7 +14,7 @@
    engine = specification (Den.v) is tested by the check on generated programs,
    not proved. *)
 From Coq Require Import ZArith NArith List Bool String.
-From Dwgrep Require Import Radix Value Words Tree Engine Build Quiet EngineProofs BuildProofs.
+From Dwgrep Require Import Radix Value Words Tree Engine Build Quiet EngineProofs BuildProofs StarvedProofs.
 Import ListNotations.
 Local Open Scope Z_scope.
 
@@ -64,6 +64,20 @@ Theorem C01_engine_stream : forall P blks, Forall quiet blks -> forall f env m a
   drains P blks f env mA (LOrigin (Some b)) sA outsB mB cB sB ->
   drains P blks f env m (LOrigin (Some b)) sA outsB mB cB sB /\ mB = m.
 Proof. exact engine_stream. Qed.
+
+(* a pristine chain that is given no input yields nothing, reports nothing and
+   stays pristine - at any nesting of `,` (dry / dried: the levels of `,` the
+   pull went through have all seen their upstream run dry) *)
+Theorem C01_no_input_no_output : forall P blks f env m c s r m' c' s' e,
+  quiet m -> dry c -> EngineM.next P blks f env m c s = Ret (r, m', c', s', e) -> r = None /\ e = [] /\ dried c'.
+Proof. intros P blks f. exact (starved P blks f). Qed.
+Print Assumptions C01_no_input_no_output.
+
+Theorem C01_end_is_final : forall P blks, Forall quiet blks -> forall f env m s r m' c' s' e,
+  quiet m -> EngineM.next P blks f env m (LOrigin None) s = Ret (r, m', c', s', e) ->
+  r = None /\ e = [] /\ quiet m' /\ reset m' = reset m /\ c' = LOrigin None.
+Proof. exact end_is_final. Qed.
+Print Assumptions C01_end_is_final.
 
 (* the executable test the check evaluates on every chain the builder produces *)
 Theorem C01_quietb_quiet : forall m, quietb m = true -> quiet m.
